@@ -1,7 +1,7 @@
 (* Obligations relating what builders/base.py + builders/legacy.py say on this run (Gen.C17_Extracted: the names
    the builder classes write to and read from `self`, the fields of the context object) to the hypotheses of the
    C17 theorems.  Compiled in build/C17/gen. *)
-From Coq Require Import List String Bool.
+From Coq Require Import ZArith List String Bool.
 From AV Require Import model.C17_Model proofs.C17_Proofs.
 From Gen Require Import C17_Extracted.
 Import ListNotations.
@@ -41,8 +41,15 @@ Proof.
 Qed.
 Print Assumptions C17_link_read_set.
 
+(* the context constructor reads only constructor-time constants of the builder (`options`): nothing a flight writes *)
+Theorem C17_link_ctor_reads :
+  forallb (fun r => mem r g_init_writes && negb (mem r g_flight_writes)) g_ctor_builder_reads = true.
+Proof. vm_compute. reflexivity. Qed.
+Print Assumptions C17_link_ctor_reads.
+
 (* the history theorem instantiated with the extracted read set and the extracted finally clause *)
 Theorem C17_link_history_independent_for_this_tree : forall ctor calc iter_once small adjust,
+  (forall o v1 v2 m, agree g_reads v1 v2 -> ctor o v1 m = ctor o v2 m) ->
   (forall o v1 v2, agree g_reads v1 v2 -> calc o v1 = calc o v2) ->
   (forall o v1 v2, agree g_reads v1 v2 -> iter_once o v1 = iter_once o v2) ->
   (forall v1 v2 r, agree g_reads v1 v2 -> adjust v1 r = adjust v2 r) ->
@@ -52,11 +59,33 @@ Theorem C17_link_history_independent_for_this_tree : forall ctor calc iter_once 
       = snd (fly ctor calc iter_once small adjust g_finally_guarded g_given_mass_fuel_derived (fresh o) m) /\
     idle g_reads o (fst (fly ctor calc iter_once small adjust g_finally_guarded g_given_mass_fuel_derived b m)).
 Proof.
-  intros ctor calc iter_once small adjust H1 H2 H3 o ms m.
+  intros ctor calc iter_once small adjust H0 H1 H2 H3 o ms m.
   destruct C17_link_read_set as (A & B & C & _).
   apply main_fly_history_independent. unfold reads_only. auto 10.
 Qed.
 Print Assumptions C17_link_history_independent_for_this_tree.
+
+(* [reads_only] is satisfiable with the extracted read set by oracles that do depend on the view: the replaying
+   oracles of the correspondence read "mission" and "starting_mass" *)
+Example C17_link_replay_oracles_read_only_extracted_names : forall ss,
+  reads_only (replay_ctor ss) (replay_calc ss) (replay_iter ss) replay_adjust g_reads.
+Proof.
+  intros ss.
+  assert (Hm : In "mission" g_reads) by (apply mem_In; vm_compute; reflexivity).
+  destruct C17_link_read_set as (A & B & C & _).
+  unfold reads_only. split; [|split; [|split; [|split; [|split; [exact A|split; [exact B|exact C]]]]]].
+  - intros o v1 v2 m Hag. reflexivity.
+  - intros o v1 v2 Hag. unfold replay_calc, mission_of_view. rewrite (Hag "mission" Hm). reflexivity.
+  - intros o v1 v2 Hag. unfold replay_iter, mission_of_view, iter_of_view.
+    rewrite (Hag "mission" Hm), (Hag "starting_mass" B). reflexivity.
+  - intros v1 v2 r Hag. unfold replay_adjust, mission_of_view, iter_of_view.
+    rewrite (Hag "mission" Hm), (Hag "starting_mass" B). reflexivity.
+Qed.
+
+Example C17_link_replay_oracles_are_not_constant :
+  replay_calc [] (mkopts false false 1 0) (fun a => if String.eqb a "mission" then Some (Some 3%Z) else None)
+  <> replay_calc [] (mkopts false false 1 0) (fun _ => None).
+Proof. vm_compute. discriminate. Qed.
 
 (* ---- round 4 ---- *)
 (* the finally clause does nothing but remove the context *)
